@@ -15,13 +15,13 @@ import CasbinModel.Config
   guard; the crate itself is fuzzed on every run.
 
 * **Whole texts**: a model text is a sequence of items (blank / comment line, `[header]`, `key = value` on one
-  line or continued on the next, each with blanks wherever blanks may stand); `Config::parse` of the text is the fold
+  line or continued on following lines, each with blanks wherever blanks may stand); `Config::parse` of the text is the fold
   of the items' meanings (`parse_items`, `parseConfig_items`), so two texts with the same headers and entries in the
   same order parse to the same data (`text_layout_independent`, `model_text_layout_independent`).
 
-Not mechanised: values continued over more than two lines inside whole texts (single-step theorems
-`continuation_joins`, `continuation_skips_junk`), and `to_text` (HashMap-ordered token replacement) — covered by
-the differential run.
+  Values continued over any number of lines are items too (`entryContN`, `contLoop_chain`).
+
+Not mechanised: `to_text` (HashMap-ordered token replacement) — covered by the differential run.
 -/
 namespace Casbin.C16
 open Casbin
@@ -346,6 +346,23 @@ example : addDef "e".toList "e".toList "some(where (p.eft == allow)) \n".toList 
 def AllWs (ws : Str) : Prop := ∀ c ∈ ws, isWs c = true
 instance (ws : Str) : Decidable (AllWs ws) := by unfold AllWs; infer_instance
 
+
+/-- a middle piece of a continued value: `wsC v wsA \ wsB` on a line of its own -/
+structure Seg where
+  wsC : Str
+  v : Str
+  wsA : Str
+  wsB : Str
+
+def Seg.line (s : Seg) : Str := s.wsC ++ (s.v ++ s.wsA ++ ['\\']) ++ s.wsB
+
+/-- a piece of a value: non-empty, no blank at either end, not opening a comment or a header -/
+def PieceOk (v : Str) : Prop :=
+  v ≠ [] ∧ (∀ c, v.head? = some c → isWs c = false) ∧ (∀ c, v.getLast? = some c → isWs c = false) ∧
+  (∀ c, v.head? = some c → c ≠ '#' ∧ c ≠ ';' ∧ c ≠ '[')
+
+def Seg.Ok (s : Seg) : Prop := AllWs s.wsC ∧ AllWs s.wsA ∧ AllWs s.wsB ∧ PieceOk s.v
+
 /-- one line of a model text as it may be written -/
 inductive Item where
   /-- a blank or comment line -/
@@ -356,6 +373,8 @@ inductive Item where
   | entry (ws1 k ws2 ws3 v ws4 : Str)
   /-- `key = v1 \` continued on the next line by `v2`, blanks before and after the backslash and around `v2` -/
   | entryCont (ws1 k ws2 ws3 v1 wsA wsB wsC v2 wsD : Str)
+  /-- a value continued over any number of lines: `key = v0 \`, then the middle pieces (`Seg`), then the last piece -/
+  | entryContN (ws1 k ws2 ws3 v0 wsA wsB : Str) (segs : List Seg) (wsC vl wsD : Str)
 
 def Item.lines : Item → List Str
   | .junk l => [l]
@@ -363,6 +382,8 @@ def Item.lines : Item → List Str
   | .entry ws1 k ws2 ws3 v ws4 => [ws1 ++ (k ++ ws2 ++ ['='] ++ ws3 ++ v) ++ ws4]
   | .entryCont ws1 k ws2 ws3 v1 wsA wsB wsC v2 wsD =>
     [ws1 ++ ((k ++ ws2 ++ ['='] ++ ws3 ++ v1) ++ wsA ++ ['\\']) ++ wsB, wsC ++ v2 ++ wsD]
+  | .entryContN ws1 k ws2 ws3 v0 wsA wsB segs wsC vl wsD =>
+    (ws1 ++ ((k ++ ws2 ++ ['='] ++ ws3 ++ v0) ++ wsA ++ ['\\']) ++ wsB) :: (segs.map Seg.line ++ [wsC ++ vl ++ wsD])
 
 /-- what a key and a value must look like for the line to be *that* entry: non-empty, no blank at either
 end, no `=` in the key, the key not opening a comment or a header, the value not ending in a backslash
@@ -382,6 +403,12 @@ def Item.Ok : Item → Prop
     (v2 ≠ [] ∧ (∀ c, v2.head? = some c → isWs c = false) ∧ (∀ c, v2.getLast? = some c → isWs c = false)) ∧
     (∀ c, k.head? = some c → c ≠ '#' ∧ c ≠ ';' ∧ c ≠ '[') ∧
     (∀ c, v2.head? = some c → c ≠ '#' ∧ c ≠ ';' ∧ c ≠ '[') ∧ v2.getLast? ≠ some '\\'
+  | .entryContN ws1 k ws2 ws3 v0 wsA wsB segs wsC vl wsD =>
+    AllWs ws1 ∧ AllWs ws2 ∧ AllWs ws3 ∧ AllWs wsA ∧ AllWs wsB ∧ AllWs wsC ∧ AllWs wsD ∧
+    (k ≠ [] ∧ '=' ∉ k ∧ (∀ c, k.head? = some c → isWs c = false) ∧ (∀ c, k.getLast? = some c → isWs c = false)) ∧
+    (v0 ≠ [] ∧ (∀ c, v0.head? = some c → isWs c = false) ∧ (∀ c, v0.getLast? = some c → isWs c = false)) ∧
+    (∀ c, k.head? = some c → c ≠ '#' ∧ c ≠ ';' ∧ c ≠ '[') ∧
+    (∀ s ∈ segs, s.Ok) ∧ PieceOk vl ∧ vl.getLast? ≠ some '\\'
 
 /-- what the line means: the current section and the data so far -/
 def Item.step : Str × CfgData → Item → Str × CfgData
@@ -389,6 +416,7 @@ def Item.step : Str × CfgData → Item → Str × CfgData
   | (_, d), .header _ name _ => (name, d)
   | (sec, d), .entry _ k _ _ v _ => (sec, addConfig d sec k v)
   | (sec, d), .entryCont _ k _ _ v1 _ _ _ v2 _ => (sec, addConfig d sec k (v1 ++ v2))
+  | (sec, d), .entryContN _ k _ _ v0 _ _ segs _ vl _ => (sec, addConfig d sec k (v0 ++ (segs.map Seg.v).flatten ++ vl))
 
 theorem trim_pad (ws1 s ws2 : Str) (h1 : AllWs ws1) (h2 : AllWs ws2) (hne : s ≠ [])
     (hh : ∀ c, s.head? = some c → isWs c = false) (hl : ∀ c, s.getLast? = some c → isWs c = false) :
@@ -430,6 +458,60 @@ theorem header_is_section (name : Str) :
   refine ⟨by simp [isSectionLine, last_bracket_cons], ?_, by simp, by simp [isComment]⟩
   unfold sectionName
   simp
+
+theorem piece_line_props (v : Str) (hv : PieceOk v) (tail : Str) :
+    (v ++ tail).isEmpty = false ∧ isComment (v ++ tail) = false ∧ isSectionLine (v ++ tail) = false := by
+  obtain ⟨c, t, rfl⟩ : ∃ c t, v = c :: t := by
+    cases hve : v with
+    | nil => exact absurd hve hv.1
+    | cons c t => exact ⟨c, t, rfl⟩
+  have h := hv.2.2.2 c (by simp)
+  refine ⟨by simp, by simp [isComment, h.1, h.2.1], by simp [isSectionLine, h.2.2]⟩
+
+/-- **the continuation loop over any number of continued lines**: started on a line `acc wsA \` (with `acc` ending in a
+non-blank), followed by the middle pieces and the last piece, it returns `acc` with all pieces appended, no separator -/
+theorem contLoop_chain (segs : List Seg) (hs : ∀ s ∈ segs, s.Ok) (acc wsA : Str) (hA : AllWs wsA)
+    (hacc : ∀ c, acc.getLast? = some c → isWs c = false)
+    (wsC vl wsD : Str) (hC : AllWs wsC) (hD : AllWs wsD) (hvl : PieceOk vl) (hnb : vl.getLast? ≠ some '\\')
+    (rest : List Str) (ns : Str) (fuel : Nat) (hf : segs.length + 2 ≤ fuel) :
+    contLoop fuel (acc ++ wsA ++ ['\\']) (segs.map Seg.line ++ (wsC ++ vl ++ wsD) :: rest) ns =
+      (acc ++ (segs.map Seg.v).flatten ++ vl, rest, ns) := by
+  induction segs generalizing acc wsA fuel with
+  | nil =>
+    obtain ⟨f, rfl⟩ : ∃ f, fuel = f + 2 := ⟨fuel - 2, by simp at hf; omega⟩
+    have e2 : trim (wsC ++ vl ++ wsD) = vl := trim_pad _ _ _ hC hD hvl.1 hvl.2.1 hvl.2.2.1
+    have pl := piece_line_props vl hvl []
+    simp only [List.append_nil] at pl
+    have := continuation_joins f (acc ++ wsA) (wsC ++ vl ++ wsD) rest ns
+      (by rw [e2]; exact pl.1) (by rw [e2]; exact pl.2.1) (by rw [e2]; exact pl.2.2)
+      (by rw [trimR_append_ws acc wsA hA hacc, e2, getLast?_append_ne _ _ hvl.1]; exact hnb)
+    rw [trimR_append_ws acc wsA hA hacc, e2] at this
+    simpa using this
+  | cons s segs ih =>
+    obtain ⟨f, rfl⟩ : ∃ f, fuel = f + 1 := ⟨fuel - 1, by simp at hf; omega⟩
+    obtain ⟨hsC, hsA, hsB, hsv⟩ := hs s (by simp)
+    have hl : (acc ++ wsA ++ ['\\']).getLast? = some '\\' := by simp
+    have hd : (acc ++ wsA ++ ['\\']).dropLast = acc ++ wsA := by simp
+    have core_last : ∀ c, (s.v ++ s.wsA ++ ['\\']).getLast? = some c → isWs c = false := by
+      intro c hc; rw [List.getLast?_concat] at hc; cases hc; decide
+    have core_head : ∀ c, (s.v ++ s.wsA ++ ['\\']).head? = some c → isWs c = false := by
+      intro c hc
+      cases hve : s.v with
+      | nil => exact absurd hve hsv.1
+      | cons a b => rw [hve] at hc; simp at hc; subst hc; exact hsv.2.1 a (by simp [hve])
+    have e1 : trim s.line = s.v ++ s.wsA ++ ['\\'] :=
+      trim_pad _ _ _ hsC hsB (by simp) core_head core_last
+    have pl := piece_line_props s.v hsv (s.wsA ++ ['\\'])
+    simp only [← List.append_assoc] at pl
+    simp only [List.map_cons, List.cons_append, List.flatten_cons]
+    rw [contLoop]
+    simp only [hl, ne_eq, not_true_eq_false, if_false, hd, e1, pl.1, pl.2.1, pl.2.2, Bool.or_self, Bool.false_eq_true]
+    rw [trimR_append_ws acc wsA hA hacc]
+    have hacc' : ∀ c, (acc ++ s.v).getLast? = some c → isWs c = false := by
+      intro c hc; rw [getLast?_append_ne _ _ hsv.1] at hc; exact hsv.2.2.1 c hc
+    have := ih (fun x hx => hs x (by simp [hx])) (acc ++ s.v) s.wsA hsA hacc' f (by simp at hf; omega)
+    simp only [List.append_assoc] at this ⊢
+    exact this
 
 /-- the part of an entry after the continuation loop: nothing to strip at the end, and `splitn(2, '=')` plus the
 two trims give back key and value -/
@@ -578,6 +660,57 @@ theorem parse_items (items : List Item) (hok : ∀ i ∈ items, i.Ok) (sec : Str
       simp only [parseLines, Item.lines, List.cons_append, List.nil_append, ht, e_empty, e_comment, e_section,
         Bool.or_self, Bool.false_eq_true, if_false, e_cont, hp, hp1, hp2, Item.step, List.isEmpty_nil, if_true]
       exact ih hrest sec (addConfig data sec k (v1 ++ v2)) f hf'
+    | entryContN ws1 k ws2 ws3 v0 wsA wsB segs wsC vl wsD =>
+      obtain ⟨h1, h2, h3, hA, hB, hC, hD, hk, hv0, hkh, hsegs, hvl, hvlb⟩ := hit
+      obtain ⟨k0, kt, hk0⟩ : ∃ c t, k = c :: t := by
+        cases hke : k with
+        | nil => exact absurd hke hk.1
+        | cons c t => exact ⟨c, t, rfl⟩
+      have l1_head : ∀ c, ((k ++ ws2 ++ ['='] ++ ws3 ++ v0) ++ wsA ++ ['\\']).head? = some c → isWs c = false := by
+        intro c hc; simp [hk0] at hc; subst hc; exact hk.2.2.1 k0 (by simp [hk0])
+      have l1_last : ∀ c, ((k ++ ws2 ++ ['='] ++ ws3 ++ v0) ++ wsA ++ ['\\']).getLast? = some c → isWs c = false := by
+        intro c hc; rw [List.getLast?_concat] at hc; cases hc; decide
+      have ht : trim (ws1 ++ ((k ++ ws2 ++ ['='] ++ ws3 ++ v0) ++ wsA ++ ['\\']) ++ wsB)
+          = (k ++ ws2 ++ ['='] ++ ws3 ++ v0) ++ wsA ++ ['\\'] :=
+        trim_pad _ _ _ h1 hB (by simp) l1_head l1_last
+      have hk0' := hkh k0 (by simp [hk0])
+      have e_empty : ((k ++ ws2 ++ ['='] ++ ws3 ++ v0) ++ wsA ++ ['\\']).isEmpty = false := by simp [hk0]
+      have e_comment : isComment ((k ++ ws2 ++ ['='] ++ ws3 ++ v0) ++ wsA ++ ['\\']) = false := by
+        simp [isComment, hk0, hk0'.1, hk0'.2.1]
+      have e_section : isSectionLine ((k ++ ws2 ++ ['='] ++ ws3 ++ v0) ++ wsA ++ ['\\']) = false := by
+        simp [isSectionLine, hk0, hk0'.2.2]
+      have core_last : ∀ c, (k ++ ws2 ++ ['='] ++ ws3 ++ v0).getLast? = some c → isWs c = false := by
+        intro c hc; rw [getLast?_append_ne _ _ hv0.1] at hc; exact hv0.2.2 c hc
+      have e_cont := contLoop_chain segs hsegs (k ++ ws2 ++ ['='] ++ ws3 ++ v0) wsA hA core_last wsC vl wsD hC hD hvl hvlb
+        (rest.flatMap Item.lines) [] ((segs.map Seg.line ++ (wsC ++ vl ++ wsD) :: rest.flatMap Item.lines).length + 1)
+        (by simp only [List.length_append, List.length_map, List.length_cons]; omega)
+      -- key and value of the joined line
+      have hvne : (v0 ++ (segs.map Seg.v).flatten ++ vl) ≠ [] := by
+        intro h; exact hvl.1 (List.append_eq_nil_iff.mp h).2
+      have hv : (v0 ++ (segs.map Seg.v).flatten ++ vl) ≠ [] ∧
+          (∀ c, (v0 ++ (segs.map Seg.v).flatten ++ vl).head? = some c → isWs c = false) ∧
+          (∀ c, (v0 ++ (segs.map Seg.v).flatten ++ vl).getLast? = some c → isWs c = false) := by
+        refine ⟨hvne, ?_, ?_⟩
+        · intro c hc
+          cases hv0e : v0 with
+          | nil => exact absurd hv0e hv0.1
+          | cons a b => rw [hv0e] at hc; simp at hc; subst hc; exact hv0.2.1 a (by simp [hv0e])
+        · intro c hc; rw [getLast?_append_ne _ _ hvl.1] at hc; exact hvl.2.2.1 c hc
+      have hvlast : (v0 ++ (segs.map Seg.v).flatten ++ vl).getLast? ≠ some '\\' := by
+        rw [getLast?_append_ne _ _ hvl.1]; exact hvlb
+      obtain ⟨p, hp, hp1, hp2⟩ := entry_tail k ws2 ws3 (v0 ++ (segs.map Seg.v).flatten ++ vl) h2 h3 hk hv hvlast
+      have hassoc : k ++ ws2 ++ ['='] ++ ws3 ++ v0 ++ (segs.map Seg.v).flatten ++ vl
+          = k ++ ws2 ++ ['='] ++ ws3 ++ (v0 ++ (segs.map Seg.v).flatten ++ vl) := by
+        simp [List.append_assoc]
+      rw [← hassoc] at hp
+      have hlines : (Item.entryContN ws1 k ws2 ws3 v0 wsA wsB segs wsC vl wsD).lines ++ rest.flatMap Item.lines =
+          (ws1 ++ ((k ++ ws2 ++ ['='] ++ ws3 ++ v0) ++ wsA ++ ['\\']) ++ wsB) ::
+            (segs.map Seg.line ++ (wsC ++ vl ++ wsD) :: rest.flatMap Item.lines) := by
+        simp [Item.lines]
+      rw [hlines]
+      simp only [parseLines, ht, e_empty, e_comment, e_section,
+        Bool.or_self, Bool.false_eq_true, if_false, e_cont, hp, hp1, hp2, Item.step, List.isEmpty_nil, if_true]
+      exact ih hrest sec (addConfig data sec k (v0 ++ (segs.map Seg.v).flatten ++ vl)) f hf'
 
 /-- what a line contributes, layout forgotten -/
 def Item.content : Item → Option (Str ⊕ (Str × Str))
@@ -585,6 +718,7 @@ def Item.content : Item → Option (Str ⊕ (Str × Str))
   | .header _ name _ => some (.inl name)
   | .entry _ k _ _ v _ => some (.inr (k, v))
   | .entryCont _ k _ _ v1 _ _ _ v2 _ => some (.inr (k, v1 ++ v2))
+  | .entryContN _ k _ _ v0 _ _ segs _ vl _ => some (.inr (k, v0 ++ (segs.map Seg.v).flatten ++ vl))
 
 def stepContent : Str × CfgData → Str ⊕ (Str × Str) → Str × CfgData
   | (_, d), .inl name => (name, d)
@@ -721,5 +855,37 @@ example :
 example : joinLines (demoLoose.flatMap Item.lines) = "# model\n  [request_definition] \n\n r=\t sub, obj, \\  \n    act  ".toList := by decide
 example : parseConfig "[request_definition]\nr = sub, obj,act".toList =
     parseConfig "# model\n  [request_definition] \n\n r=\t sub, obj, \\  \n    act  ".toList := by decide +kernel
+
+
+/-- non-vacuity for values continued over several lines: a matcher written on one line and written on three -/
+def demoM1 : List Item :=
+  [.header [] "matchers".toList [], .entry [] "m".toList [' '] [' '] "r.sub == p.sub &&r.obj == p.obj &&r.act == p.act".toList []]
+def demoM3 : List Item :=
+  [.header [] "matchers".toList [],
+   .entryContN [] "m".toList [' '] [' '] "r.sub == p.sub &&".toList [' '] []
+     [⟨"    ".toList, "r.obj == p.obj &&".toList, [' '], [' ']⟩] "    ".toList "r.act == p.act".toList []]
+
+example :
+    parseLines (demoM1.length + 1) (demoM1.flatMap Item.lines) [] [] =
+    parseLines (demoM3.length + 1) (demoM3.flatMap Item.lines) [] [] := by
+  apply text_layout_independent
+  · intro i hi
+    simp only [demoM1, List.mem_cons, List.not_mem_nil, or_false] at hi
+    rcases hi with rfl | rfl
+    · exact ⟨by decide, by decide⟩
+    · exact ⟨by decide, by decide, by decide, by decide, by decide, by decide, by decide, by decide⟩
+  · intro i hi
+    simp only [demoM3, List.mem_cons, List.not_mem_nil, or_false] at hi
+    rcases hi with rfl | rfl
+    · exact ⟨by decide, by decide⟩
+    · refine ⟨by decide, by decide, by decide, by decide, by decide, by decide, by decide, by decide, by decide, by decide,
+        ?_, ⟨by decide, by decide, by decide, by decide⟩, by decide⟩
+      intro s hs
+      simp only [List.mem_cons, List.not_mem_nil, or_false] at hs
+      subst hs
+      exact ⟨by decide, by decide, by decide, by decide, by decide, by decide, by decide⟩
+  · decide
+
+example : joinLines (demoM3.flatMap Item.lines) = "[matchers]\nm = r.sub == p.sub && \\\n    r.obj == p.obj && \\ \n    r.act == p.act".toList := by decide
 
 end Casbin.C16
